@@ -9,7 +9,8 @@ from __future__ import annotations
 
 from mc.spec import edits as E
 
-QUICK_BASES_11 = ["frame", "frame_index", "frame_multi", "series", "series_index", "column", "column_str", "index"]
+QUICK_BASES_11 = ["frame", "frame_index", "frame_multi", "series", "series_index", "column", "column_str", "index",
+                  "multiindex"]
 
 
 def plan_shards(tier, parsers=False, bases=None, nshards_big=48, quick_pairs=("frame",), extra=None):
